@@ -56,3 +56,31 @@ Section ThreeD.
   Definition tensor_of (m : nat -> nat -> R) : list R :=
     [m 0 0; m 1 1; m 2 2; m 0 1; m 1 0; m 0 2; m 2 0; m 1 2; m 2 1]%nat.
 End ThreeD.
+
+(* ------------------------------------------------------------------ plane stress hypotheses (second round)
+   The axial stress vanishes: S_axial = 0 defines the axial Green-Lagrange strain, hence the TRUE axial stretch
+   z = sqrt (1 + 2 E_axial); every stress measure is the Saint-Venant Kirchhoff one evaluated with the true F. *)
+Section PlaneStress.
+  Variables la mu : R.
+  (* 1D, (rr, zz, tt): the axial direction is component 1 *)
+  Definition ps1_Eax (f0 f2 : R) : R := - la / (la + 2 * mu) * (E1 0 f0 1 f2 + E1 2 f0 1 f2).
+  Definition ps1_z (f0 f2 : R) : R := sqrt (1 + 2 * ps1_Eax f0 f2).
+  (* 2D, (xx yy zz xy yx): the axial direction is component 2; F with a given axial stretch z, as a 3D list *)
+  Definition F2d (f0 f1 z f3 f4 : R) : list R := [f0; f1; z; f3; f4; 0; 0; 0; 0].
+  Definition ps2_Eax (f0 f1 f3 f4 : R) : R := - la / (la + 2 * mu) * (Egl (F2d f0 f1 1 f3 f4) 0 0 + Egl (F2d f0 f1 1 f3 f4) 1 1).
+  Definition ps2_z (f0 f1 f3 f4 : R) : R := sqrt (1 + 2 * ps2_Eax f0 f1 f3 f4).
+End PlaneStress.
+(* storage of 2D tensors: the first 4 (symmetric) resp. 5 (unsymmetric) components of the 3D storage *)
+Definition stensor2_of (m : nat -> nat -> R) : list R := [m 0%nat 0%nat; m 1%nat 1%nat; m 2%nat 2%nat; sqrt 2 * m 0%nat 1%nat].
+Definition tensor2_of (m : nat -> nat -> R) : list R := [m 0 0; m 1 1; m 2 2; m 0 1; m 1 0]%nat.
+(* tau = F S F^T *)
+Definition tausvk (la mu : R) (f : list R) (i j : nat) := sum3 (fun k => Psvk la mu f i k * Fm f j k).
+
+(* plane stress, 1D: the material response depends on the in-plane stretches only (la* = 2 la mu/(la+2mu), in-plane trace); the axial
+   stretch x1 enters the push-forward as an independent argument.  At the true axial stretch these are the SVK closed forms
+   (C55_plane_stress_1D_closed_forms) *)
+Definition ps1_S (la mu : R) (i : nat) (x0 x1 x2 : R) : R :=
+  match i with 1%nat => 0 | _ => 2 * la * mu / (la + 2 * mu) * (E1 0 x0 1 x2 + E1 2 x0 1 x2) + 2 * mu * E1 i x0 1 x2 end.
+Definition ps1_sigma (la mu : R) (i : nat) (x0 x1 x2 : R) : R := sel i x0 x1 x2 * ps1_S la mu i x0 x1 x2 * sel i x0 x1 x2 / J1 x0 x1 x2.
+Definition ps1_P (la mu : R) (i : nat) (x0 x1 x2 : R) : R := sel i x0 x1 x2 * ps1_S la mu i x0 x1 x2.
+
